@@ -63,7 +63,7 @@ func main() {
 	trace := fs.Bool("trace", false, "trace instructions")
 	logdir := fs.String("logdir", "", "solver logs")
 	maxPaths := fs.Int("maxpaths", 0, "path budget")
-	timeout := fs.Duration("timeout", 0, "wall budget per harness")
+	timeout := fs.Duration("timeout", 0, "wall budget for all harnesses of this invocation together")
 	tlimit := fs.Int("tlimit", 20000, "solver time limit per query (ms)")
 	instrBudget := fs.Int64("instrs", 0, "instruction budget per path")
 	debug.SetGCPercent(400)
@@ -112,11 +112,20 @@ func main() {
 	}
 	fmt.Fprintf(os.Stderr, "loaded %s in %.1fs (%d target functions)\n", *pkg, ld.LoadWall.Seconds(), ld.NumFuncs)
 	var outs []harnessOut
+	deadline := time.Now().Add(*timeout)
 	for _, h := range strings.Split(*harnesses, ",") {
 		if h == "" {
 			continue
 		}
-		opts := interp.RunOptions{Workers: *workers, Trace: *trace, LogDir: *logdir, MaxPaths: *maxPaths, Timeout: *timeout,
+		left := *timeout
+		if left > 0 {
+			// one budget for the whole invocation: a harness that cannot finish is reported
+			// inconclusive, it does not get a fresh budget of its own
+			if left = time.Until(deadline); left < 2*time.Second {
+				left = 2 * time.Second
+			}
+		}
+		opts := interp.RunOptions{Workers: *workers, Trace: *trace, LogDir: *logdir, MaxPaths: *maxPaths, Timeout: left,
 			SolverTimeoutMs: *tlimit, InstrBudget: *instrBudget, Param: pm, Single: *single}
 		if *decisions != "" {
 			opts.Decisions = []int32{}
